@@ -77,6 +77,18 @@ TEXTS = {
 }
 
 
+_TG: dict = {}
+
+
+def _tiny_grammar():
+    if "g" not in _TG:
+        from mc import grammars as G
+
+        _TG["b"] = G.build(G.family_shapes()[0])
+        _TG["g"] = _TG["b"].extract()
+    return _TG["g"]
+
+
 class Flags(SearchRecorder):
     def __init__(self):
         self.flags = []
@@ -147,7 +159,15 @@ def run_unit(unit) -> UnitResult:
                         from geml.simplegp import SimpleGP
 
                         cbs = {"A": lambda ph: f"a:{ph.i}", "B": lambda ph: f"b:{ph.i}"}
-                        tracker = SimpleGP.build_recorder(object(), problem, path, unit["only_best"], False, cbs)
+                        if unit["fields"] == "given":
+                            # through the public constructor (its own problem object is swapped for ours afterwards)
+                            sgp = SimpleGP(ff, _tiny_grammar(), minimize=False if nobj == 1 else [False] * nobj, csv_output=path,
+                                           csv_extra_fields=cbs, only_record_best_individuals=unit["only_best"], population_size=4,
+                                           max_evaluations=4, elitism=1, novelty=1)
+                            tracker = sgp.gp.tracker
+                            problem = sgp.problem
+                        else:
+                            tracker = SimpleGP.build_recorder(object(), problem, path, unit["only_best"], False, cbs)
                         tracker.recorders.insert(0, flags)
                         rec = [x for x in tracker.recorders if isinstance(x, CSVSearchRecorder)][0]
                         if fields is not None:
@@ -168,14 +188,25 @@ def run_unit(unit) -> UnitResult:
                     rep = Rep()
                     boundaries = [len(dev.writes)]  # raw-write indices at which a registration completed
                     expected_rows = []
+                    best_so_far = None
+                    only_best_effective = unit["only_best"]
                     ok = True
                     for i, f in enumerate(seq):
                         table[i] = f
                         ind = Individual(Prog(i, TEXTS[unit["text"]](i)), rep)
                         tracker.evaluate([ind])
                         r.executions += 1
-                        is_best = flags.flags[-1][1]
-                        if (not unit["only_best"]) or is_best:
+                        # which registrations must be logged is decided by an independent reference, not by the
+                        # tracker's own flag: strict improvements (single objective) / not worse than the best
+                        # aggregate so far (multi-objective front), or everything in record-all mode
+                        agg = float(f) if nobj == 1 else float(sum(f + 10 * k for k in range(nobj)))
+                        if nobj == 1:
+                            improved = best_so_far is None or agg > best_so_far
+                        else:
+                            improved = best_so_far is None or agg >= best_so_far
+                        if improved:
+                            best_so_far = agg
+                        if (not only_best_effective) or improved:
                             expected_rows.append(ind)
                         boundaries.append(len(dev.writes))
                         content = (real_open(path, "rb").read() if conformance else dev.content())
